@@ -1067,7 +1067,8 @@ def dtype_independence(pid, cases, seed, dim_positions=(1,), shape=(3, 8, 2)):
     """The SAME numbers stored in another dtype give the same result.  `cases`: (name, fn(d, dimname) -> DNPData | dict of
     DNPData | ndarray, dimname).  The reference object holds small integer-valued float64 values on an integer-valued float64
     axis; the variants store the values as int64 / int32 / int16 / float32 / complex128 (zero imaginary part) and the
-    coordinates of the processed dimension as int64 / int32 / uint16 / float32.  A variant that RAISES is not judged (refusing a
+    coordinates of the processed dimension as int64 / int32 / uint16 / float32; three further variants keep the dtype and change the
+    MEMORY LAYOUT of the values (Fortran order, a strided view into a larger buffer, reversed strides).  A variant that RAISES is not judged (refusing a
     dtype is not a wrong result); one that returns must agree with the reference by value (dims equal, values and every
     coordinate array close).  Returns (failures, evaluations)."""
     import warnings
@@ -1116,7 +1117,7 @@ def dtype_independence(pid, cases, seed, dim_positions=(1,), shape=(3, 8, 2)):
                 cs = [c.copy() for c in coords]
                 if cd is not None:
                     cs[pos] = axis.astype(cd)
-                return dnp.DNPData(v, list(names), cs)
+                return dnp.DNPData(v, list(names), cs, attrs={"nmr_frequency": 400.0e6}, dnplab_attrs={"frequency": 400.0e6})
 
             def call(d):
                 with warnings.catch_warnings():
@@ -1127,11 +1128,22 @@ def dtype_independence(pid, cases, seed, dim_positions=(1,), shape=(3, 8, 2)):
                 ref = call(build())
             except Exception:  # noqa: BLE001
                 continue
-            for which, kinds in (("values", vkinds), ("axis", ckinds)):
+            def build_layout(kind):
+                d = build()
+                if kind == "fortran":
+                    d.values = np.asfortranarray(vals.copy())
+                elif kind == "strided":
+                    big = np.zeros(tuple(shp) + (2,), dtype=float); big[..., 0] = vals
+                    d.values = big[..., 0]                       # a non-contiguous view into a larger buffer
+                elif kind == "transposed-view":
+                    d.values = np.ascontiguousarray(vals.T).T     # same numbers, reversed strides
+                return d
+            lkinds = [("fortran", "fortran", 1e-12), ("strided", "strided", 1e-12), ("transposed-view", "transposed-view", 1e-12)]
+            for which, kinds in (("values", vkinds), ("axis", ckinds), ("layout", lkinds)):
                 for label, dt, tol in kinds:
                     n_eval += 1
                     try:
-                        got = call(build(vd=dt) if which == "values" else build(cd=dt))
+                        got = call(build_layout(dt) if which == "layout" else build(vd=dt) if which == "values" else build(cd=dt))
                     except Exception:  # noqa: BLE001  (a dtype the function refuses)
                         continue
                     bad = [k for k in ref if k not in got or not same(got[k], ref[k], tol)]
@@ -1206,4 +1218,70 @@ def axis_scale_independence(pid, cases, seed, scales=(1e-9, 1e-6, 1e-3, 1e3, 1e6
             if not ok:
                 key = "%s:result-depends-on-axis-scale:%s" % (pid, name)
                 fails.append({"key": key, "clause": key, "ops": [{"function": name, "scale": s, "axis": (base * s).tolist()}]}); break
+    return fails, n_eval
+
+
+# ------------------------------------------------------------------ what a call returns must not depend on the calls before it
+def history_independence(pid, cases, seed, shape=(3, 8, 2), pos=1):
+    """Module-level state (caches, defaults updated in place, options remembered between calls) shows as a result that depends on
+    what was called before.  For every case ci (and its neighbour cj in the list): r0 = ci(A); then cj(A), cj(B), ci(B), ci(C) with
+    other objects of the same and of another length; then ci(A) again must equal r0 — and r0 itself, kept from the first call, must
+    still be what it was (a later call must not reach back into an earlier result).  `cases` as for `dtype_independence`."""
+    import warnings
+    rng = random.Random(seed * 7919 + 4444)
+    fails, n_eval = [], 0
+
+    def mk(n, x0, dx, dimname, salt):
+        shp = list(shape); shp[pos] = n
+        names = ["Average", "x2", "y3"]; names[pos] = dimname
+        r2 = random.Random(salt)
+        v = np.array([r2.randint(-9, 9) + 0.25 * r2.randint(0, 3) for _ in range(int(np.prod(shp)))], dtype=float).reshape(shp)
+        v = v + 1j * np.roll(v, 2)
+        cs = [np.arange(m, dtype=float) for m in shp]; cs[pos] = x0 + dx * np.arange(n)
+        return dnp.DNPData(v, names, cs, attrs={"nmr_frequency": 400.0e6}, dnplab_attrs={"frequency": 400.0e6})
+
+    def call(fn, d, dimname):
+        with warnings.catch_warnings():
+            warnings.simplefilter("ignore")
+            with np.errstate(all="ignore"):
+                r = fn(d, dimname)
+        return {"": r} if isinstance(r, dnp.DNPData) else ({k: v for k, v in r.items() if isinstance(v, dnp.DNPData)} if isinstance(r, dict) else {})
+
+    for k, (name, fn, dimname) in enumerate(cases):
+        name2, fn2, dim2 = cases[(k + 1) % len(cases)]
+        n = shape[pos]
+        A = lambda: mk(n, 0.0, 2.0, dimname, 11)
+        B = lambda dn=dimname: mk(n, 1.0, 0.5, dn, 12)
+        C = lambda: mk(n + 3, 0.0, 2.0, dimname, 13)
+        try:
+            r0 = call(fn, A(), dimname)
+        except Exception:  # noqa: BLE001
+            continue
+        if not r0:
+            continue
+        snap0 = {kk: deep_snap(v) for kk, v in r0.items()}
+        for f_, d_, dn_ in ((fn2, mk(n, 0.0, 2.0, dim2, 11), dim2), (fn2, B(dim2), dim2), (fn, B(), dimname), (fn, C(), dimname)):
+            try:
+                call(f_, d_, dn_)
+            except Exception:  # noqa: BLE001
+                pass
+        n_eval += 1
+        try:
+            r1 = call(fn, A(), dimname)
+        except Exception as e:  # noqa: BLE001
+            key = "%s:result-depends-on-earlier-calls:%s:raises" % (pid, name)
+            fails.append({"key": key, "clause": key, "ops": [{"function": name, "after": name2, "error": type(e).__name__}]}); continue
+        for kk, sn in snap0.items():
+            ch = snap_diff(sn, deep_snap(r0[kk]))
+            if ch:
+                key = "%s:earlier-result-changed-by-later-call:%s" % (pid, name)
+                fails.append({"key": key, "clause": key, "ops": [{"function": name, "later": name2, "parts": ch}]}); break
+            if kk not in r1:
+                continue
+            s1 = deep_snap(r1[kk])
+            bad = [p_ for p_ in ("dims", "coords", "values") if p_ in snap_diff(sn, s1)]
+            if bad:
+                # identical inputs, identical call: anything but the very same numbers is state carried over
+                key = "%s:result-depends-on-earlier-calls:%s" % (pid, name)
+                fails.append({"key": key, "clause": key, "ops": [{"function": name, "after": name2, "parts": bad}]}); break
     return fails, n_eval
